@@ -276,7 +276,11 @@ func receiverValue(x *lc, h int) (evals, bad int) {
 				recv = build(x.seed, x.e, j)
 			} else if h == 3 {
 				how = "grown from"
-				recv = build(x.seed, x.e, j)
+				// (a private deep copy: catalogue values may share rings with the parameter sets of the world, and
+				// grow appends in place)
+				cp := reflect.New(reflect.TypeOf(x.o.obj).Elem())
+				cp.Elem().Set(deepCopy(reflect.ValueOf(build(x.seed, x.e, j)).Elem()))
+				recv = cp.Interface()
 				grow(recv)
 			} else if h == 4 {
 				k := jk / len(x.e.vals)
